@@ -9,6 +9,7 @@
 
 use crate::alpha::common::Declaration;
 use crate::alpha::common::DeclarationFlag;
+use crate::alpha::common::Identifier;
 use crate::alpha::error::Error;
 use crate::alpha::included;
 
@@ -92,6 +93,47 @@ pub fn expand(modules: &mut [(std::path::PathBuf, Vec<Declaration>)])
 			declarations.iter().filter_map(|x| export(x)).collect();
 		let (_, declarations) = &mut modules[offset_of_includer];
 		declarations.splice(0..0, imported_declarations);
+	}
+
+	// Functions with external linkage share one namespace in the linked
+	// program, whether or not their modules import each other. Without this
+	// check the linker rejects the second definition on its own terms.
+	let mut external_functions: Vec<(usize, Identifier)> = Vec::new();
+	for (offset, (_, declarations)) in modules.iter_mut().enumerate()
+	{
+		let mut duplicates = Vec::new();
+		for declaration in declarations.iter()
+		{
+			let name = match declaration
+			{
+				Declaration::Function { name, flags, .. }
+					if flags.contains(DeclarationFlag::Public)
+						|| name.name == "main" =>
+				{
+					name
+				}
+				_ => continue,
+			};
+			match external_functions.iter().find(|(_, x)| x.name == name.name)
+			{
+				Some((offset_of_previous, previous)) =>
+				{
+					if *offset_of_previous != offset
+					{
+						duplicates.push(Error::DuplicateDeclarationFunction {
+							name: name.name.clone(),
+							location: name.location.clone(),
+							previous: previous.location.clone(),
+						});
+					}
+				}
+				None => external_functions.push((offset, name.clone())),
+			}
+		}
+		for error in duplicates
+		{
+			declarations.push(Declaration::Poison(error.into()));
+		}
 	}
 }
 
